@@ -19,11 +19,13 @@ P_AllWhenClean(o) == /\ (o.atTamper < 0 /\ o.clean /\ o.state = "records") => Is
                      \* transfer takes (envClosed: the schedule cut / closed it, or the application closed it)
                      /\ (o.atTamper < 0 /\ o.clean /\ ~o.envClosed) => o.state = "records"
 P_NoInternal(o) == o.internal = <<>>
+\* a read issued while records are waiting in the queue gets the oldest of them - also after the connection has gone
+P_QueuedObtainable(o) == o.lateReadFailed = 0
 
 VARIABLE k
 Init == k = 0
 Next == k < Len(All) /\ k' = k + 1
         /\ PrintT(<<"OBS", All[k'].tid, <<P_Prefix(All[k']), P_NothingAfter(All[k']), P_Down(All[k']), P_ReadsFail(All[k']),
-                                          P_Consumer(All[k']), P_AllWhenClean(All[k']), P_NoInternal(All[k'])>>>>)
+                                          P_Consumer(All[k']), P_AllWhenClean(All[k']), P_NoInternal(All[k']), P_QueuedObtainable(All[k'])>>>>)
 Spec == Init /\ [][Next]_k
 ====
